@@ -46,7 +46,11 @@ CidBytes == {
   <<1, 85, 0, 0>>,
   <<1, 169, 2, 19, 64>> \o Fill(64, 5),
   <<1, 113, 18, 4, 1, 2, 3, 4>>,
-  <<1, 113, 30, 32>> \o Fill(32, 11) }
+  <<1, 113, 30, 32>> \o Fill(32, 11),
+  \* inline (identity) CIDs whose length sits on a CBOR head-size boundary once the 0x00 prefix is added:
+  \* 22 / 23 / 24 and 254 / 255 / 256 bytes
+  <<1, 85, 0, 18>> \o Fill(18, 7), <<1, 85, 0, 19>> \o Fill(19, 7), <<1, 85, 0, 20>> \o Fill(20, 7),
+  <<1, 85, 0, 249, 1>> \o Fill(249, 7), <<1, 85, 0, 250, 1>> \o Fill(250, 7), <<1, 85, 0, 251, 1>> \o Fill(251, 7) }
 LinksFull  == {Scalar("link", c) : c \in CidBytes}
 LinksSmall == {Scalar("link", <<1, 85, 0, 3, 97, 98, 99>>)}
 
